@@ -509,6 +509,117 @@ theorem writeMsg_one_reply {β ν δ : Type} (lib : Lib β ν δ) (hm : Mono lib
       simp only [hs]
       exact ⟨Or.inr ⟨s.data, rfl, hdp.1, hdp.2, hlib, rfl⟩, hheap, hclean⟩
 
+/-- `udpJob.Write` / `udpJob.WriteMsg` stage exactly the bytes they are given
+— copied in when they come from elsewhere (the packer's pooled scratch, an
+allocation `PackBuffer` made because the slab was shorter than `Len()+1`),
+by length alone only when the library packed them into the slab itself — so
+the datagram never shows what an earlier request left in the slab. -/
+theorem udp_stages_what_it_is_given (j : UdpJob) (b : Bytes) (ulen : Nat) (hfit : b.length ≤ j.tx.length) :
+    (udpWrite j b false).1.staged = b ∧ (udpWrite j b false).2 = true ∧
+    (udpWriteMsg j (.ok b) ulen).1.staged = b ∧ (udpWriteMsg j (.ok b) ulen).2 = true := by
+  have h1 : ¬ b.length > j.tx.length := by omega
+  have hw : (writeAt j.tx 0 b).take b.length = b := by
+    have := writeAt_take j.tx 0 b (by omega)
+    simpa using this
+  have key : ∀ (alias : Bool), ((if (decide (b.length > 0) && !alias) = true then writeAt j.tx 0 b else j.tx).take b.length = b) ∨ alias = true := by
+    intro alias
+    cases alias with
+    | true => exact Or.inr rfl
+    | false =>
+      left
+      by_cases h0 : b.length > 0
+      · simp [h0, hw]
+      · have : b = [] := List.eq_nil_of_length_eq_zero (by omega)
+        subst this; simp
+  refine ⟨?_, ?_, ?_, ?_⟩
+  · unfold udpWrite UdpJob.staged
+    simp only [h1, if_false]
+    rcases key false with h | h
+    · simpa using h
+    · cases h
+  · unfold udpWrite; simp [h1]
+  · unfold udpWriteMsg
+    by_cases hp : ulen + 1 ≤ j.tx.length
+    · simp only [hp, if_true]
+      unfold udpWrite UdpJob.staged
+      have : ¬ b.length > (writeAt j.tx 0 b).length := by rw [writeAt_length]; omega
+      simp only [this, if_false]
+      simpa using hw
+    · simp only [hp, if_false]
+      unfold udpWrite UdpJob.staged
+      simp only [h1, if_false]
+      rcases key false with h | h
+      · simpa using h
+      · cases h
+  · unfold udpWriteMsg
+    by_cases hp : ulen + 1 ≤ j.tx.length
+    · simp only [hp, if_true]; unfold udpWrite
+      have : ¬ b.length > (writeAt j.tx 0 b).length := by rw [writeAt_length]; omega
+      simp [this]
+    · simp only [hp, if_false]; unfold udpWrite; simp [h1]
+
+/-- **A UDP reply is the library's encoding whichever route it took**: pooled
+packer → `Write`, or declined → `WriteMsg` (in place or allocated); if the
+library encodes the reply in `b` and `b` fits the slab, the staged datagram is
+`b`, for ANY previous content of the slab.  A reply the library refuses, or
+one that does not fit, stages nothing and reports failure. -/
+theorem udp_reply_is_library {β ν δ : Type} (lib : Lib β ν δ) (hm : Mono lib) (m : Msg ν) (heap : Heap β)
+    (st : PState β δ) (hst : Clean lib st) (dp : Bool) (j : UdpJob)
+    (hroom : (libPack lib m heap).1 = (libPackWith lib m heap (max (libBufLen lib m heap) packBufferSize)).1) :
+    (∀ b, (libPack lib m heap).1 = .ok b → b.length ≤ j.tx.length →
+      (udpReply lib m heap st dp j).1.staged = b ∧ (udpReply lib m heap st dp j).2 = true) ∧
+    ((∀ b, (libPack lib m heap).1 ≠ .ok b) →
+      (udpReply lib m heap st dp j).2 = false ∧ (udpReply lib m heap st dp j).1 = j) := by
+  have hw := (writeMsg_one_reply lib hm m heap st hst dp false hroom).1
+  unfold udpReply
+  rcases hw with h | ⟨b0, h, _, _, hl, _⟩
+  · rw [h]
+    constructor
+    · intro b hb hfit
+      rw [hb]
+      exact ⟨(udp_stages_what_it_is_given j b _ hfit).2.2.1, (udp_stages_what_it_is_given j b _ hfit).2.2.2⟩
+    · intro hno
+      cases ho : (libPack lib m heap).1 with
+      | ok b => exact absurd ho (hno b)
+      | err e => simp [udpWriteMsg]
+      | panic => simp [udpWriteMsg]
+  · rw [h]
+    constructor
+    · intro b hb hfit
+      rw [hl] at hb; cases hb
+      exact ⟨(udp_stages_what_it_is_given j b0 0 hfit).1, (udp_stages_what_it_is_given j b0 0 hfit).2.1⟩
+    · intro hno; exact absurd hl (hno b0)
+
+/-- **A TCP reply is one frame carrying the library's encoding**, appended
+after the frames already staged on the connection (which are not touched). -/
+theorem tcp_reply_is_library {β ν δ : Type} (lib : Lib β ν δ) (hm : Mono lib) (m : Msg ν) (heap : Heap β)
+    (st : PState β δ) (hst : Clean lib st) (dp : Bool) (s : TcpStream)
+    (hroom : (libPack lib m heap).1 = (libPackWith lib m heap (max (libBufLen lib m heap) packBufferSize)).1) :
+    (∀ b, (libPack lib m heap).1 = .ok b → b.length ≤ 65535 →
+      (tcpReply lib m heap st dp s).1.frames = s.frames ++ [b] ∧ (tcpReply lib m heap st dp s).2 = true) ∧
+    ((∀ b, (libPack lib m heap).1 ≠ .ok b) → tcpReply lib m heap st dp s = (s, false)) := by
+  have hw := (writeMsg_one_reply lib hm m heap st hst dp false hroom).1
+  unfold tcpReply
+  rcases hw with h | ⟨b0, h, _, _, hl, _⟩
+  · rw [h]
+    constructor
+    · intro b hb hfit
+      rw [hb]
+      have : ¬ b.length > 65535 := by omega
+      simp [tcpStage, this]
+    · intro hno
+      cases ho : (libPack lib m heap).1 with
+      | ok b => exact absurd ho (hno b)
+      | err e => rfl
+      | panic => rfl
+  · rw [h]
+    constructor
+    · intro b hb hfit
+      rw [hl] at hb; cases hb
+      have : ¬ b0.length > 65535 := by omega
+      simp [tcpStage, this]
+    · intro hno; exact absurd hl (hno b0)
+
 /-- **What a cache entry keeps** is `PackClone` of the storable view, hence
 (`packClone_eq_library`) the library's encoding of that view — header,
 question, answer, authority, the additional section without its OPT records,
@@ -663,6 +774,14 @@ example : ∃ b, (writeMsg toyLib toyMsg toyHeap toySt true false).events = [.wr
     simp at h
   · exact ⟨b, h, hl⟩
 example : (writeMsg toyLib toyMsg toyHeap toySt true true).events = [.writeMsg] := by rfl
+
+-- a stale slab (0xEE everywhere) and a reply packed elsewhere: the datagram is the reply, nothing stale;
+-- likewise when the library packed in place
+example : (udpWrite { tx := List.replicate 32 0xEE } [1, 2, 3] false).1.staged = [1, 2, 3] := by decide
+example : (udpWriteMsg { tx := List.replicate 32 0xEE } (.ok [1, 2, 3]) 40).1.staged = [1, 2, 3] ∧
+    (udpWriteMsg { tx := List.replicate 32 0xEE } (.ok [1, 2, 3]) 10).1.staged = [1, 2, 3] := by decide
+-- what the seeded shortcut did (stage by length although the bytes are elsewhere) shows the previous reply
+example : ({ tx := List.replicate 32 0xEE, txLen := 3 } : UdpJob).staged = [0xEE, 0xEE, 0xEE] := by decide
 
 -- the view drops both OPTs (pointers 2 and 3) and keeps the rest in order; the toy primitives satisfy Room
 example : (storableView toyHeap toyMsg).extra = [some 1, some 4] ∧ (storableView toyHeap toyMsg).compress = true := by decide
